@@ -14,15 +14,15 @@ cp $OUT/patch.diff $DEST/patch.diff; cp $OUT/demo.rs $DEST/demo.rs; cp $OUT/note
 LOG=$DEST/confirm.log; : > $LOG
 mkdir -p $WT/$CRATE/tests; cp $OUT/demo.rs $WT/$CRATE/tests/seeded_demo.rs
 echo "## demo on pristine tree (expect PASS)" >> $LOG
-( cd $WT && timeout 3600 cargo test --offline -p $PKG --test seeded_demo 2>&1 | grep -E "^test |test result|error(\[|:)|panicked" | head -20 ) >> $LOG
+( cd $WT && timeout 3600 cargo test --offline -p $PKG ${FEAT:-} --test seeded_demo 2>&1 | grep -E "^test |test result|error(\[|:)|panicked" | head -20 ) >> $LOG
 PRISTINE=$(grep -c "test result: ok" $LOG)
 git -C $WT apply $OUT/patch.diff || { echo "PATCH DOES NOT APPLY" >> $LOG; exit 2; }
 echo "## demo with patch (expect FAIL)" >> $LOG
-( cd $WT && timeout 3600 cargo test --offline -p $PKG --test seeded_demo 2>&1 | grep -E "^test |test result|error(\[|:)|panicked" | head -20 ) >> $LOG
+( cd $WT && timeout 3600 cargo test --offline -p $PKG ${FEAT:-} --test seeded_demo 2>&1 | grep -E "^test |test result|error(\[|:)|panicked" | head -20 ) >> $LOG
 PATCHED_FAIL=$(sed -n '/## demo with patch/,$p' $LOG | grep -c "test result: FAILED")
 rm -f $WT/$CRATE/tests/seeded_demo.rs
 echo "## existing tests of $PKG with patch (expect all pass)" >> $LOG
-( cd $WT && timeout 7200 cargo test --offline -p $PKG 2>&1 | grep -E "test result|FAILED|failed" | head -20 ) >> $LOG
+( cd $WT && timeout 7200 cargo test --offline -p $PKG ${FEAT:-} 2>&1 | grep -E "test result|FAILED|failed" | head -20 ) >> $LOG
 SUITE_FAIL=$(sed -n '/## existing tests/,$p' $LOG | grep -c "FAILED")
 echo "SUMMARY id=$ID pristine_pass=$PRISTINE patched_fail=$PATCHED_FAIL suite_failures=$SUITE_FAIL" | tee -a $LOG
 git -C $WT checkout -q -- . ; git -C $WT clean -fdq -e target
